@@ -37,7 +37,15 @@ type layer struct {
 	srcOff *T
 }
 
+// piece describes one segment of a string built by the Sprintf model.
+type piece struct {
+	lit   string // literal text, or
+	num   *T     // the value of a zero-padded fixed-width decimal number
+	width int
+}
+
 type ByteObj struct {
+	pieces   []piece // set for strings produced by the Sprintf model (immutable)
 	id       int
 	size     *T
 	maxSize  int64 // concrete upper bound of size, -1 when unknown
